@@ -4,6 +4,13 @@ Engines E14 (lock / fence discipline), E7 (CFG path rules), E13 (dispatch contex
 enumeration), E5 (sympy normal forms of the element ranges).  All facts come from the clang front end
 (driver tu/c17_domain_assembler.cpp instantiates DomainAssembler::assemble / assemble_master and
 Worker<Job> for five jobs covering the three (need_scatter, need_combine) classes); no FEAT3 code is run.
+
+Normalisations shared by the rules (round 5): member helpers called on `this` are followed (Proto inlines
+their event sequences with integer / fence-reference / status parameters bound to the caller's arguments;
+CFG path rules use the helper call as the event when the event is unconditional inside the helper;
+combine(), state accesses of ThreadFence, resets in clear() are followed into helpers); switch, if-chain
+and named selector constants are one decision table (eval_succ on CFG switch terminators, Proto.decide,
+compile_model); loop_normal accepts for / while with the counter declared in or before the loop.
 """
 import itertools
 import re
@@ -432,20 +439,130 @@ def switch_segments(sw):
     return segs
 
 
-def loop_normal(fx, loop):
-    """(var decl id, init node, cond node, step) of a canonical counting For loop, else None"""
-    if loop.get("k") != "For":
-        return None
-    init, c, inc = loop.get("init"), loop.get("c"), loop.get("inc")
-    if init is None or c is None or inc is None or init.get("k") != "Decl" or len(init.get("vars", [])) != 1:
-        return None
-    v = init["vars"][0]
-    inc = strip(inc)
-    if inc.get("k") == "Un" and inc["op"] in ("++", "--") and strip(inc["e"]).get("d") == v["d"]:
-        step = 1 if inc["op"] == "++" else -1
+def counter_step(n, d=None):
+    """(decl id, +1/-1) if expression n changes a local counter by one (`++v`, `v--`, `v += 1`,
+    `v = v + 1`, `v = 1 + v`), else None"""
+    n = strip(n or {})
+    if n.get("k") == "Un" and n.get("op") in ("++", "--") and strip(n["e"]).get("k") == "Ref" and strip(n["e"]).get("dk") == "local":
+        r = (strip(n["e"])["d"], 1 if n["op"] == "++" else -1)
+    elif n.get("k") == "Assign" and strip(n["lhs"]).get("k") == "Ref" and strip(n["lhs"]).get("dk") == "local":
+        v = strip(n["lhs"])["d"]
+        one = lambda x: strip(x).get("k") == "Int" and int(strip(x)["v"]) == 1
+        rhs = strip(n["rhs"])
+        if n.get("op") in ("+=", "-=") and one(rhs):
+            r = (v, 1 if n["op"] == "+=" else -1)
+        elif n.get("op") == "=" and rhs.get("k") == "Bin" and rhs.get("op") in ("+", "-"):
+            l_, r_ = strip(rhs["lhs"]), strip(rhs["rhs"])
+            if l_.get("k") == "Ref" and l_.get("d") == v and one(r_):
+                r = (v, 1 if rhs["op"] == "+" else -1)
+            elif rhs["op"] == "+" and r_.get("k") == "Ref" and r_.get("d") == v and one(l_):
+                r = (v, 1)
+            else:
+                return None
+        else:
+            return None
     else:
         return None
-    return (v["d"], v.get("init"), c, step)
+    if d is not None and r[0] != d:
+        return None
+    return r
+
+
+def _outside_start(fx, loop, d, init, inc):
+    """start value of a counter declared before the loop (`T v = e; for(; c; ++v)`, `for(v = e; ...)`,
+    `T v = e; while(c) { ...; ++v; }`): the initialiser / the assignment in the for-init, provided the
+    counter is modified nowhere else, is not handed to a callee by reference, and is declared at the
+    nesting level of the loop (so that every execution of the loop starts from that value)"""
+    fn = fx.fn
+    var = next((v for v in fn.nodes() if v.get("k") == "Var" and v.get("d") == d), None)
+    if var is None or var.get("ref"):
+        return None
+    mods = [n for n in fn.nodes() if (n.get("k") == "Assign" and strip(n["lhs"]).get("k") == "Ref" and strip(n["lhs"]).get("d") == d) or
+            (n.get("k") == "Un" and n.get("op") in ("++", "--") and strip(n["e"]).get("k") == "Ref" and strip(n["e"]).get("d") == d)]
+    allowed = [strip(inc)]
+    start = var.get("init")
+    i0 = strip(init) if init is not None else None
+    if i0 is not None:
+        if i0.get("k") == "Assign" and i0.get("op") == "=" and strip(i0["lhs"]).get("d") == d:
+            start = i0["rhs"]
+            allowed.append(i0)
+        elif i0.get("k") not in ("Decl",) or any(v.get("d") == d for v in i0.get("vars", [])):
+            return None
+    if start is None or any(not any(m is a for a in allowed) for m in mods):
+        return None
+    for n in fn.nodes():
+        if is_call(n):
+            for a_, t_ in zip(n.get("a", []), n.get("pt", [])):
+                if strip(a_).get("k") == "Ref" and strip(a_).get("d") == d and (fn.type(t_) or "").rstrip().endswith("&") and not (fn.type(t_) or "").startswith("const"):
+                    return None
+        if n.get("k") == "Un" and n.get("op") == "&" and strip(n.get("e") or {}).get("d") == d:
+            return None
+    if i0 is None or start is var.get("init"):
+        # the declaration must sit directly before the loop at the same nesting level
+        outer = lambda x: next((p for p in fx.ancestors(x) if p.get("k") in ("For", "While", "Do", "ForRange")), None)
+        if outer(var) is not outer(loop):
+            return None
+        if not fx.dominates(fx.pos(var), fx.pos(loop.get("c"))):
+            return None
+    return start
+
+
+def loop_normal(fx, loop):
+    """(var decl id, init node, cond node, step) of a counting loop, else None.  Recognised forms:
+    `for(T v = e; c; ++v)` (also `v++`, `v += 1`, `v = v + 1`, `--v` ...), the same with the counter
+    declared before the loop or assigned in the for-init, and `T v = e; while(c) { body; ++v; }` with
+    the step as the last statement of the body and no `continue` in it"""
+    k = loop.get("k")
+    if k == "For":
+        init, c, inc = loop.get("init"), loop.get("c"), loop.get("inc")
+        if c is None or inc is None:
+            return None
+        if init is not None and init.get("k") == "Decl" and len(init.get("vars", [])) == 1:
+            v = init["vars"][0]
+            st = counter_step(inc, v["d"])
+            if st is not None:
+                return (v["d"], v.get("init"), c, st[1])
+        st = counter_step(inc)
+        if st is None:
+            return None
+        start = _outside_start(fx, loop, st[0], init, inc)
+        if start is None:
+            return None
+        return (st[0], start, c, st[1])
+    if k == "While":
+        c, body = loop.get("c"), loop.get("body")
+        if c is None or body is None or body.get("k") != "Block" or not body.get("s"):
+            return None
+        last = body["s"][-1]
+        st = counter_step(last)
+        if st is None:
+            return None
+        for n in walk(body):
+            if n.get("k") == "Continue":
+                lp = next((p for p in fx.ancestors(n) if p.get("k") in ("For", "While", "Do", "ForRange")), None)
+                if lp is loop:
+                    return None
+        # the counter must be tested by the loop condition
+        if not any(x.get("k") == "Ref" and x.get("d") == st[0] for x in walk(c)):
+            return None
+        start = _outside_start(fx, loop, st[0], None, last)
+        if start is None:
+            return None
+        return (st[0], start, c, st[1])
+    return None
+
+
+def loop_start_stmt(fx, loop):
+    """node at which the start value of a counting loop is evaluated"""
+    ln = loop_normal(fx, loop)
+    if ln is None:
+        return None
+    init = loop.get("init") if loop.get("k") == "For" else None
+    if init is not None and init.get("k") == "Decl" and any(v.get("d") == ln[0] for v in init.get("vars", [])):
+        return next(v for v in init["vars"] if v.get("d") == ln[0])
+    if init is not None and strip(init).get("k") == "Assign":
+        return strip(init)
+    return next((v for v in fx.fn.nodes() if v.get("k") == "Var" and v.get("d") == ln[0]), None)
 
 
 # -------------------------------------------------------------------------------------------------
@@ -818,54 +935,52 @@ def rule_fence(ck, facts):
     api = ("wait", "open", "close")
     ext_called = {n.get("callee") for g in facts.functions if g.cls != "FEAT::ThreadFence" for n in g.nodes() if n.get("k") == "MCall" and n.get("ccls") == "FEAT::ThreadFence"}
 
-    def held_by_callers(f, depth=0):
-        """private helper: the fence mutex held at every call of f inside the class (transitively);
-        None if f can be entered from outside or is not called at all"""
-        if f.name in api or f.qn in ext_called or depth > 2:
-            return None
-        sites = [(g, n) for g in fns if g is not f for n in g.nodes()
-                 if n.get("k") == "MCall" and (n.get("obj") or {}).get("k") == "This" and (n.get("cfull") == f.full or n.get("callee") == f.qn)]
-        if not sites:
-            return None
-        got = set()
-        for g, call in sites:
-            if g.d.get("ctor") or g.d.get("dtor"):
-                continue            # the object is not shared yet / any more
-            gx = FX(g)
-            m = lock_held_at(gx, call, lambda e, g=g: this_field(e) is not None and "std::mutex" in g.ntype(e))
-            if m is None:
-                m = held_by_callers(g, depth + 1)
-            if m is None:
-                return None
-            got.add(m)
-        return sorted(got)[0] if len(got) == 1 else None
+    def internal_sites(f):
+        return [(g, n) for g in fns if g is not f for n in g.nodes()
+                if n.get("k") == "MCall" and (n.get("obj") or {}).get("k") == "This" and (n.get("cfull") == f.full or n.get("callee") == f.qn)]
+
+    def is_private_helper(f):
+        """only ever entered from other member functions of the fence (guard may live in the callers)"""
+        return f.name not in api and f.qn not in ext_called and not f.d.get("virtual") and bool(internal_sites(f))
+
+    def accesses(f, depth=0):
+        """(field, line, mutex held or None, via helper name or None) for every state access executed
+        by f, private helpers included; for an access inside a helper the lock may be held in the
+        helper or at the call of the helper"""
+        fx = FX(f)
+        mp = lambda e, f=f: this_field(e) is not None and "std::mutex" in f.ntype(e)
+        for n in f.nodes():
+            fld = this_field(n)
+            if n.get("k") == "Member" and fld in state:
+                yield fld, n.get("l"), lock_held_at(fx, n, mp), None
+            elif n.get("k") == "MCall" and (n.get("obj") or {}).get("k") == "This":
+                h = find_method(f.cls, n)
+                if h is None or depth >= 2 or not is_private_helper(h):
+                    continue
+                at_call = lock_held_at(fx, n, mp)
+                for fld2, l2, m2, via2 in accesses(h, depth + 1):
+                    yield fld2, l2, (m2 or at_call), (via2 or h.name)
     for name, f in sorted(meth.items()):
+        if is_private_helper(f):
+            continue            # judged at its callers
         fx = FX(f)
         mp = lambda e, f=f: this_field(e) is not None and "std::mutex" in f.ntype(e)
         per_field = {}
-        via_callers = None
-        for n in f.nodes():
-            fld = this_field(n)
-            if n.get("k") != "Member" or fld not in state:
-                continue
-            m = lock_held_at(fx, n, mp)
-            if m is None:
-                # guard moved into the callers: a private helper only ever called with the lock held
-                via_callers = via_callers if via_callers is not None else (held_by_callers(f) or False)
-                m = via_callers or None
-            per_field.setdefault(fld, []).append((m, n.get("l")))
+        for fld, l, m, via in accesses(f):
+            per_field.setdefault(fld, []).append((m, l, via))
         for fld, acc in sorted(per_field.items()):
-            bad = [l for m, l in acc if m is None]
+            bad = [l for m, l, via in acc if m is None]
+            vias = sorted({via for m, l, via in acc if via})
             if bad:
                 um = unmodelled_locking(fx, mp)
                 if um is not None:
                     ck.incomplete(R, "ThreadFence::%s/%s: no modelled lock held at line(s) %s, but %s" % (name, fld, bad, um))
                     continue
             ck.ob(R, "ThreadFence::%s/%s" % (name, fld), not bad,
-                  "state member %s is accessed in ThreadFence::%s at line(s) %s without a lock on the fence mutex that dominates the access and is still held%s" % (
-                      fld, name, bad, "" if name in api else " (neither here nor at every call of this helper inside the class)") if bad
-                  else "every access to %s in %s() is dominated by a live lock on %s%s" % (fld, name, acc[0][0], " (held by the callers of this private helper)" if via_callers else ""), f.file, f.line)
-            for m, l in acc:
+                  "state member %s is accessed in ThreadFence::%s%s at line(s) %s without a lock on the fence mutex that dominates the access and is still held" % (
+                      fld, name, " (through the private helper %s, neither locked there nor at its call)" % ", ".join(vias) if vias else "", bad) if bad
+                  else "every access to %s in %s()%s is dominated by a live lock on %s" % (fld, name, " (incl. the private helper %s)" % ", ".join(vias) if vias else "", acc[0][0]), f.file, f.line)
+            for m, l, via in acc:
                 if m is not None:
                     mutex_of.setdefault(name, set()).add(m)
     allm = set().union(*mutex_of.values()) if mutex_of else set()
@@ -913,7 +1028,7 @@ def rule_fence(ck, facts):
                       "after _cvar.wait() returns the state predicate is re-tested by a branch condition before wait() can return (spurious wake-ups)" if ok
                       else "after condition_variable::wait at line %s a path reaches the return of wait() without re-testing the fence state: a spurious wake-up (or a notify of an earlier phase) lets wait() return while the fence is closed" % c.get("l"),
                       w.file, c.get("l"))
-            if loops and loops[0].get("k") == "While":
+            if loops and loops[0].get("k") in ("While", "For") and loops[0].get("c") is not None:
                 pred_cond = loops[0]["c"]
 
     # --- state machine: ctor/close block, open releases; okay round trip
@@ -986,6 +1101,14 @@ def rule_fence(ck, facts):
         ids = [n["i"] for n in nts]
         esc = fxo.reach((fxo.cfg.entry, 0), target_blocks=[fxo.cfg.exit], avoid_stmts=ids + [n["i"] for n in opq if fxo.cfg.block_of(n.get("i")) is not None])
         sets = [n for n in op.nodes() if n.get("k") == "Assign" and this_field(n["lhs"]) in state and fxo.cfg.block_of(n["i"]) is not None]
+
+        def sets_state(h, depth=0):
+            return any((x.get("k") == "Assign" and this_field(x["lhs"]) in state) or
+                       (x.get("k") == "MCall" and (x.get("obj") or {}).get("k") == "This" and depth < 2 and (find_method(h.cls, x) is None or sets_state(find_method(h.cls, x), depth + 1)))
+                       for x in h.nodes())
+        # a member helper that stores the state counts as the store
+        sets += [n for n in op.nodes() if n.get("k") == "MCall" and (n.get("obj") or {}).get("k") == "This" and n.get("i") is not None and fxo.cfg.block_of(n["i"]) is not None
+                 and (find_method(op.cls, n) is None or sets_state(find_method(op.cls, n)))]
         bad = []
         mp = lambda e: this_field(e) is not None and "std::mutex" in op.ntype(e)
         for nt in nts:
@@ -1209,15 +1332,23 @@ def compile_model(facts):
                 return None
 
         def visit(st):
+            """collects the assigned fields of st; True if st leaves the function on every path"""
             if st is None:
-                return
+                return False
             k = st.get("k")
+            if k == "Block":
+                for x in st.get("s", []):
+                    if visit(x):
+                        return True
+                return False
             if k == "If":
                 v = val(st["c"])
                 if v is not None:
                     decided["n"] += 1
-                    visit(st.get("then") if v else st.get("else"))
-                    return
+                    return visit(st.get("then") if v else st.get("else"))
+                visit(st["c"])
+                t_, e_ = visit(st.get("then")), visit(st.get("else"))
+                return bool(t_ and e_ and st.get("else") is not None)
             if k == "Switch":
                 v = val(st["c"])
                 if v is not None:
@@ -1227,13 +1358,14 @@ def compile_model(facts):
                     if grp is None:
                         grp = next((ss for ls, ss in segs if "default" in ls), [])
                     for x in grp:
-                        visit(x)
-                    return
+                        if visit(x):
+                            return True
+                    return False
             if k == "Cond":
                 v = val(st["c"])
                 if v is not None:
                     visit(st.get("then") if v else st.get("else"))
-                    return
+                    return False
             if k == "Assign" and this_field(st["lhs"]):
                 r_ = strip(st["rhs"])
                 if not (st.get("op") == "=" and ((r_.get("k") == "Int" and int(r_["v"]) == 0) or (r_.get("k") == "Bool" and not r_["v"]))):
@@ -1248,6 +1380,7 @@ def compile_model(facts):
                     out.update(assigned(h, env, depth + 1, seen | {h.full}))
             for c in children(st):
                 visit(c)
+            return k == "Return" or (is_call(st) and bool(st.get("noreturn")))
         visit(fn.body)
         return out
     can = {}
@@ -1437,7 +1570,7 @@ def has_sync_events(fn, depth=0):
             if h is None or has_sync_events(h, depth + 1):
                 return True
         if is_call(n) and not fence_call(n) and n.get("callee") != "std::thread::join" and not (n.get("ccls") or "").startswith("std::vector<") and \
-                any(is_fence_type(fn.ntype(strip(a))) or re.match(r"^(const )?std::thread( &)?$", fn.ntype(strip(a)) or "") for a in n.get("a", [])):
+                any("ThreadFence" in (fn.ntype(strip(a)) or "") or re.match(r"^(const )?std::thread( &)?$", fn.ntype(strip(a)) or "") for a in n.get("a", [])):
             return True
     return False
 
@@ -1567,7 +1700,7 @@ class Proto:
                     sub.sym[("l", p_["d"])] = sx(self.fn, a_, csym)
                 except Unknown:
                     pass
-        items = sub.stmts(h.body.get("s", []))
+        items = [i_ for i_ in sub.stmts(h.body.get("s", [])) if i_["k"] != "stop"]      # the helper's return is not the caller's
         nr = hfx.cfg.noreturn_blocks()
         fails = [x["i"] for x in h.nodes() if x.get("k") == "Return" and strip(x.get("e") or {}).get("k") == "Bool" and strip(x["e"])["v"] is False]
         for x in all_events(items):
@@ -1607,6 +1740,10 @@ class Proto:
                 raise Unknown("fence/task operations inside a lambda at line %s" % n.get("l"))
             if is_call(n) and not fence_call(n) and any(is_fence_type(self.fn.ntype(strip(a))) for a in n.get("a", [])):
                 raise Unknown("a fence is passed to `%s` (line %s): not modelled" % (n.get("callee"), n.get("l")))
+            if is_call(n) and not (n.get("ccls") or "").startswith("std::vector<") and not (n.get("ccls") or "").startswith("std::thread") and \
+                    any("ThreadFence" in (self.fn.ntype(strip(a)) or "") or strip(a).get("k") == "This" for a in n.get("a", [])):
+                # a callee that receives the fence vector (or the whole object) may open/close/wait
+                raise Unknown("the fences (or `this`) are handed to `%s` (line %s): not modelled" % (n.get("callee"), n.get("l")))
             if fence_call(n):
                 kind = n["callee"].rsplit("::", 1)[-1]
                 f, kloop = self.fence_class(n.get("obj"), n)
@@ -1631,9 +1768,14 @@ class Proto:
         return v
 
     def stmts(self, sts):
+        """events of a statement list; a statement that leaves the list on every path (return, break,
+        noreturn call - also as the decided branch of an if / switch) ends it with a `stop` item"""
         out = []
         for st in sts:
-            out.extend(self.stmt(st))
+            items = self.stmt(st)
+            out.extend(items)
+            if items and items[-1]["k"] == "stop":
+                break
         return out
 
     def stmt(self, st):
@@ -1651,7 +1793,7 @@ class Proto:
                     self.expr_events(st[key], hdr)
             if any(h["k"] != "task" for h in hdr):
                 raise Unknown("fence event in a loop header at line %s" % st.get("l"))
-            inner = self.stmt(st.get("body"))
+            inner = [i for i in self.stmt(st.get("body")) if i["k"] != "stop"]
             if any(i["k"] == "task" for i in inner):
                 return [{"k": "work", "loop": st, "inner": [i for i in inner if i["k"] != "task"], "tasks": [i for i in inner if i["k"] == "task"], "l": st.get("l"), "fx": self.fx}]
             if inner:
@@ -1670,9 +1812,19 @@ class Proto:
                 return ce + [{"k": "exit_if", "cond": st["c"], "exit": ex["k"], "l": st.get("l")}]
             th = self.stmt(st.get("then"))
             el = self.stmt(st.get("else"))
+            both_stop = bool(th) and bool(el) and th[-1]["k"] == "stop" and el[-1]["k"] == "stop"
+            t_exit = bool(th) and th[-1]["k"] == "stop"
+            e_exit = bool(el) and el[-1]["k"] == "stop"
+            th = [x for x in th if x["k"] != "stop"]
+            el = [x for x in el if x["k"] != "stop"]
+            tail = [{"k": "stop", "exit": "both branches", "l": st.get("l")}] if both_stop else []
+            if not both_stop and ((t_exit and not th) or (e_exit and not el)):
+                # one branch only (cleans up and) leaves: a conditional exit, then the other branch -
+                # `if(!ok) return false; rest` == `if(ok) { rest } else return false;`
+                return ce + [{"k": "exit_if", "cond": st["c"], "exit": "Return", "l": st.get("l")}] + (el if (t_exit and not th) else th)
             if all(x["k"] == "task" for x in th + el):
-                return ce + th + el
-            return ce + [{"k": "if", "cond": st["c"], "then": th, "else": el, "l": st.get("l")}]
+                return ce + th + el + tail
+            return ce + [{"k": "if", "cond": st["c"], "then": th, "else": el, "l": st.get("l")}] + tail
         if k == "Switch":
             v = self.decide(st["c"])
             if v is not None:
@@ -1688,6 +1840,8 @@ class Proto:
             return []
         out = []
         self.expr_events(st, out)
+        if k in ("Return", "Break", "Continue") or (is_call(st) and st.get("noreturn")):
+            out.append({"k": "stop", "exit": k, "l": st.get("l")})
         return out
 
 
@@ -2064,7 +2218,7 @@ def all_events(items):
 
 
 def work_loop(fx):
-    loops = [n for n in fx.fn.nodes() if n.get("k") == "For" and any(task_call(x, "prepare") for x in walk(n.get("body")))]
+    loops = [n for n in fx.fn.nodes() if n.get("k") in ("For", "While") and any(task_call(x, "prepare") for x in walk(n.get("body")))]
     inner = [l for l in loops if not any(l2 is not l and any(x is l2 for x in walk(l.get("body"))) for l2 in loops)]
     return inner[0] if len(inner) == 1 else None
 
@@ -2657,9 +2811,26 @@ def rule_partition(ck, job, vctx, enum):
                 lo, hi = sympy.Integer(0), sympy.Symbol("size_%s" % En_, integer=True, nonnegative=True)
             else:
                 C = VF(Cn_)
-                if not (base.func == C and len(base.args) == 1):
-                    raise Unknown("the element offset %s of a round is not an entry of the colour offsets vector" % base)
-                g = base.args[0]
+                # absolute start of the first worker's range in a round: must be a colour offset C(g);
+                # the offset may be added at prepare() (base) or already be part of the range bounds
+                starts = set()
+                for (nw_, st_), per_ in by_n.items():
+                    if nw_ >= 1 and per_:
+                        starts.add(sympy.simplify(base + per_[min(per_)][0]))
+                if len(starts) != 1:
+                    raise Unknown("the first worker's start position differs between contexts: %s" % sorted(map(str, starts)))
+                start = starts.pop()
+                if not start.has(RC):
+                    # definite: the first worker starts at the same cell in every round, whatever the
+                    # colour tables hold
+                    ck.ob(R, name, False,
+                          "inside the colour round loop the first worker's first cell is %s(%s) in every round (prepare() receives %s(%s + position)): the start does not depend on the colour round, so with >= 2 colours cells of the first interval are assembled in every round and the cells of later colours never" % (
+                              En_, start, En_, base),
+                          fn.file, prep[0]["l"])
+                    continue
+                if not (start.func == C and len(start.args) == 1):
+                    raise Unknown("the first element %s of a round is not an entry of the colour offsets vector" % start)
+                g = start.args[0]
                 lo, hi = C(g), C(g + 1)
                 # the rounds must visit every interval [C(j), C(j+1)), j = 0 .. size-2, once
                 sizeC = sympy.Symbol("size_%s" % Cn_, integer=True, nonnegative=True)
@@ -2711,6 +2882,11 @@ def rule_thread_layer_ends(ck, facts):
     R = "E5.thread-layers-ends"
     fns = [f for f in facts.functions if f.name == "_build_thread_layers"]
     if not fns:
+        # inlined into its caller: any set-up function of the assembler stating the front/back pair
+        fns = [f for f in facts.functions if re.search(r"DomainAssembler<", f.cls) and "::Worker<" not in f.cls and f.body is not None
+               and any(n.get("k") == "Call" and n.get("callee") == "FEAT::assertion" and n.get("a") and
+                       any(x.get("k") == "MCall" and x.get("n") == "front" and this_field(x.get("obj")) for x in walk(n["a"][0])) for n in f.nodes())]
+    if not fns:
         ck.incomplete(R, "_build_thread_layers not found")
         return
     fn = fns[0]
@@ -2722,7 +2898,7 @@ def rule_thread_layer_ends(ck, facts):
             if c.get("k") == "Bin" and c["op"] == "==":
                 for l_, r_ in ((c["lhs"], c["rhs"]), (c["rhs"], c["lhs"])):
                     try:
-                        texts[str(sx(fn, l_, {}))] = (r_, n)
+                        texts[str(sx(fn, l_, {("inits",): single_def_inits(fn)}))] = (r_, n)
                     except Unknown:
                         pass
     tl = None
@@ -2760,7 +2936,7 @@ def all_loop_over(fx, loop, vec_field, alt_bound_field=None):
     if loop.get("k") == "ForRange" and this_field(loop.get("range")) == vec_field:
         d = (loop.get("var") or {}).get("d")
         return lambda o: strip(o).get("k") == "Ref" and strip(o).get("d") == d
-    if loop.get("k") != "For":
+    if loop.get("k") not in ("For", "While"):
         return None
     ln = loop_normal(fx, loop)
     if ln is not None and ln[3] == 1:
@@ -2784,6 +2960,8 @@ def all_loop_over(fx, loop, vec_field, alt_bound_field=None):
                 return False
         return acc
     # iterator loop: for(auto it = v.begin(); it != v.end(); ++it)
+    if loop.get("k") != "For":
+        return None
     init, c, inc = loop.get("init"), strip(loop.get("c") or {}), strip(loop.get("inc") or {})
     if init is None or init.get("k") != "Decl" or len(init.get("vars", [])) != 1:
         return None
@@ -2821,7 +2999,7 @@ def sync_marks(fx, tvec, ffield, nfield, depth=0):
          "join_other": set(), "close_other": set(), "clear_other": set(), "close_partial": set()}
     in_good = set()
     for lp in fn.nodes():
-        if lp.get("k") not in ("For", "ForRange"):
+        if lp.get("k") not in ("For", "ForRange", "While"):
             continue
         body_calls = [n for n in walk(lp.get("body")) if n.get("k") == "MCall"]
         js = [n for n in body_calls if n.get("callee") == "std::thread::join"]
@@ -2864,7 +3042,7 @@ def sync_marks(fx, tvec, ffield, nfield, depth=0):
                 if not touches:
                     continue
                 always = hx.reach((hx.cfg.entry, 0), target_blocks=[hx.cfg.exit], avoid_blocks=hm[eff]["blocks"] | hx.cfg.noreturn_blocks(), avoid_stmts=hm[eff]["stmts"]) is None
-                if always and not n.get("a"):
+                if always and not h.d.get("virtual"):
                     m[eff]["stmts"].add(n["i"])
                 else:
                     m[eff + "_other"].add(n["i"])
@@ -2956,14 +3134,14 @@ def rule_count_wrap(ck, facts, nfield):
             continue
         fx = FX(fn)
         for lp in fn.nodes():
-            ln = loop_normal(fx, lp) if lp.get("k") == "For" else None
+            ln = loop_normal(fx, lp) if lp.get("k") in ("For", "While") else None
             if ln is None or ln[1] is None:
                 continue
             if not any(this_field(x) == nfield and x.get("k") == "Member" for x in walk(ln[1])):
                 continue
             if not any(x.get("k") == "Bin" and x["op"] == "-" and is_unsigned(fn.ntype(x)) for x in walk(ln[1])):
                 continue
-            ipos = fx.pos(lp["init"]["vars"][0])
+            ipos = fx.pos(loop_start_stmt(fx, lp))
             conds = path_conditions(fx, ipos[0]) if ipos else []
             doms = [a for a in asg if fx.dominates(fx.pos(a), ipos)]
             free_f, free_s = set(), set()
@@ -3037,20 +3215,20 @@ def rule_count_wrap(ck, facts, nfield):
 # -------------------------------------------------------------------------------------------------
 
 RULES = [
-    ("E14.fence-guarded", "ThreadFence: every read/write of a state member (_open/_okay) in wait/open/close is dominated by a live lock on the fence mutex. Broken for: any two threads using one fence concurrently (data race on the flags, missed updates).", 6),
+    ("E14.fence-guarded", "ThreadFence: every read/write of a state member (_open/_okay) in wait/open/close - including private helpers they call, where the lock may be held in the helper or at its call - is dominated by a live lock on the fence mutex. Broken for: any two threads using one fence concurrently (data race on the flags, missed updates).", 6),
     ("E14.fence-one-mutex", "ThreadFence: wait, open and close lock one and the same mutex (the one the condition wait releases). Broken for: opener and waiter running concurrently.", 1),
-    ("E14.fence-wait-loop", "ThreadFence::wait: after condition_variable::wait returns, the closed-predicate is re-tested by a loop condition on every path to the return. Broken for: spurious wake-ups / notify of an earlier phase (a worker passes a closed fence and scatters next to its neighbour).", 1),
+    ("E14.fence-wait-loop", "ThreadFence::wait: after condition_variable::wait returns, the closed-predicate is re-tested by a loop condition on every path to the return (wait(lock, pred) with a predicate lambda over the live state is the same loop). Broken for: spurious wake-ups / notify of an earlier phase (a worker passes a closed fence and scatters next to its neighbour).", 1),
     ("E14.fence-state-machine", "ThreadFence: constructor and close() make the wait predicate true (blocking), open() makes it false. Broken for: every multi-threaded job (deadlock or no synchronisation at all).", 3),
     ("E14.fence-okay-roundtrip", "ThreadFence: wait() returns the member that open(okay) stores its argument in. Broken for: a job in which one worker fails (the others never learn and wait forever / continue next to a dead neighbour).", 1),
     ("E14.fence-notify", "ThreadFence::open: notify_all on the condition variable wait() sleeps on is passed on every path, and not before the state is set unless the fence mutex is held at the notify. Broken for: a waiter already sleeping when the fence is opened (lost wake-up, deadlock).", 1),
-    ("E14.combine-locked", "task->combine() is called with a lock on the shared thread mutex held (RAII lock object in scope and dominating the call, or lock()/unlock() around it) in every worker variant that the construction contexts can reach with more than one worker. Broken for: jobs with need_combine (integrals, error norms) on >= 2 threads: lost updates in the reduction.", 13),
+    ("E14.combine-locked", "task->combine() - called by the worker variant itself or by a member helper it calls - is executed with a lock on the shared thread mutex held (RAII lock object in scope and dominating the call, or lock()/unlock() around it; in the helper or around the helper call) in every worker variant that the construction contexts can reach with more than one worker. Broken for: jobs with need_combine (integrals, error norms) on >= 2 threads: lost updates in the reduction.", 13),
     ("E14.shared-mutex", "every Worker construction passes the assembler's own std::mutex member as thread_mutex. Broken for: need_combine jobs on >= 2 threads (each worker locking its own mutex excludes nobody).", 10),
     ("E13.dispatch-asserts", "for every (id, num_workers, strategy) context that assemble()/assemble_master() can construct (bounded enumeration) Worker::operator() dispatches to a variant whose own XASSERTs on id/num_workers hold. Broken for: meshes/settings that resolve to exactly one (or zero) worker threads: the assembly aborts.", 12),
-    ("E14.protocol", "for every strategy that can have workers and the worker variant operator() selects for the job's need_scatter flag: the master branch of assemble() and the worker variant exchange fence events such that every wait has an open in the other role in the same round, the happens-before graph is acyclic, no open is erased by a close before its waiter passed, no stale open of an earlier phase satisfies a wait, master and worker run the same number of rounds, every iteration of a round loop passes the whole fence sequence of the round on every path that continues with the next round (no `continue` around the handshake), colour rounds are ordered through the master. Broken for: the named strategy/job class with >= 2 workers (deadlock or two colours scattered concurrently).", 15),
+    ("E14.protocol", "for every strategy that can have workers and the worker variant operator() selects for the job's need_scatter flag: the master's code after the thread creation, specialised for the strategy value (switch / if-chain / named selector constant are one decision table; member helpers are inlined with their parameters bound), and the worker variant exchange fence events such that every wait has an open in the other role in the same round, the happens-before graph is acyclic, no open is erased by a close before its waiter passed, no stale open of an earlier phase satisfies a wait, master and worker run the same number of rounds, every iteration of a round loop passes the whole fence sequence of the round on every path that continues with the next round (no `continue` around the handshake), colour rounds are ordered through the master. Broken for: the named strategy/job class with >= 2 workers (deadlock or two colours scattered concurrently).", 15),
     ("E7.layered-wait-before-scatter", "layered variant: in the loop iteration `element == wait position` every path to task->scatter() passes wait() on fence id+1. Broken for: layered strategies, >= 2 threads, scattering jobs: thread id scatters its last layer while thread id+1 scatters the adjacent first layer.", 3),
     ("E7.layered-open-after-scatter", "layered variant: open(true) of fence id is reachable only after scatter() of the iteration `element == open position` and is passed on every continuing path of that iteration. Broken for: layered strategies, >= 2 threads: thread id-1 enters its last layer too early (race) or waits forever.", 3),
     ("E5.layered-positions", "layered variant, per construction context: range = [L(T(id-1)), L(T(id))) (consecutive thread_layers entries), wait position = L(T(id)-1) for id < n and none for id = n, open position = L(T(id-1)+1)-1 for id >= 2; prepare() gets element_indices[position]. Broken for: layered strategies (cells assembled twice/never, handshake at the wrong cell, last thread waiting on a fence nobody opens).", 15),
-    ("E14.wait-result-checked", "every ThreadFence::wait() in a reachable worker variant is tested by `if(!wait()) return false`. Broken for: a job in which another worker fails (exception in a task): this worker would continue/deadlock instead of terminating.", 12),
+    ("E14.wait-result-checked", "every ThreadFence::wait() in a reachable worker variant (or in a member helper that returns its result, followed to the caller) leads to `return false` on a false result before any further task/fence operation. Broken for: a job in which another worker fails (exception in a task): this worker would continue/deadlock instead of terminating.", 12),
     ("E14.failure-opens-fence", "Worker::operator(): the status starts false, is set only from the work functions, and every path to the end with a false status opens the worker's own fence with false. Broken for: a failing worker whose neighbour (layered) or master (coloured) waits on its fence: deadlock.", 5),
     ("E5.range-partition", "single / no-scatter / coloured variants: the ranges [beg(id), end(id)) of ids 1..n abut, start at the lower and end at the upper end of the index interval the variant is responsible for ([0,size) resp. the colour interval), for every enumerated worker count and symbolically (sympy, floor division); the round loop visits every colour interval. Broken for: worker counts that do not divide the cell count (cells skipped or assembled twice).", 10),
     ("E5.thread-layers-ends", "_build_thread_layers asserts thread_layers.front() == 0 and .back() == number of layers. Broken for: layered strategy (first/last layers not assembled).", 1),
@@ -3319,6 +3497,20 @@ def rule_cell_index_kind(ck, facts, elem_field):
                 return MESH, "entry of %s" % elem_field
             if nm in ("at", "operator[]") and "TargetSet" in (e.get("ccls") or ""):
                 return MESH, "target index of a mesh part"
+            if e["k"] == "MCall" and (e.get("obj") or {}).get("k") == "This":
+                # accessor helper `Index _cell(Index pos) const { return _element_indices.at(pos); }`
+                h = find_method(fn.cls, e)
+                body = (h.body or {}).get("s", []) if h is not None and not h.d.get("virtual") else []
+                if len(body) == 1 and body[0].get("k") == "Return" and body[0].get("e") is not None and len(h.params) == len(e.get("a", [])):
+                    k_, why = kind(FX(h), body[0]["e"], single_def_inits(h), depth + 1)
+                    if k_ == "contract":
+                        r_ = strip(body[0]["e"])
+                        idx = next((i for i, p_ in enumerate(h.params) if p_["d"] == r_.get("d")), None)
+                        if idx is not None:
+                            return kind(fx, e["a"][idx], inits, depth + 1)
+                        return None, "value of `%s`" % render(e)
+                    if k_ is not None:
+                        return k_, "%s (through the accessor %s)" % (why, h.name)
             return None, "value of `%s`" % render(e)
         if e.get("k") == "Ref" and e.get("dk") == "param":
             return "contract", "parameter `%s`" % e["n"]
